@@ -31,6 +31,7 @@ Do(a) ==
       [] a.act = "SubCheck"      -> SubCheck(a.s, a.sp, a.f)
       [] a.act = "Sub1"          -> Sub1(a.s)
       [] a.act = "Sub2"          -> Sub2
+      [] a.act = "Sub3"          -> Sub3(a.s)
       [] a.act = "Unsub1"        -> Unsub1(a.s, a.sp, ToSet(a.P))
       [] a.act = "Unsub2"        -> Unsub2(a.s)
       [] a.act = "EvictMember"   -> EvictMember(a.sp, a.acct)
@@ -83,7 +84,7 @@ TrReset == IsLine("reset") /\
            /\ refs' = [sp \in GoodSpaces |-> [p \in PatU |-> 0]]
            /\ member' = InitMember
            /\ pend' = NoPend /\ busy' = [s \in Sids |-> "idle"] /\ pendU' = [s \in Sids |-> {}]
-           /\ chk' = [s \in Sids |-> NoChk] /\ evicted' = {}
+           /\ chk' = [s \in Sids |-> NoChk] /\ rchk' = [s \in Sids |-> NoRchk] /\ evicted' = {}
            /\ late' = [s \in Sids |-> FALSE]
            /\ tokens' = [p \in Peers |-> Burst]
            /\ want' = [s \in Sids |-> {}]
